@@ -6,6 +6,8 @@ import KojenVerif.Model.Conn
 import KojenVerif.Model.Wire
 import KojenVerif.Model.Dispatch
 import KojenVerif.Model.EmitPy
+import KojenVerif.Model.EmitCs
+import KojenVerif.Model.EmitSml
 /-
   Line-protocol driver: one JSON object per input line, one JSON object per output line.
   Run with `lake env lean --run Driver/Main.lean`.  The harness pipes the same inputs to the
@@ -252,6 +254,22 @@ def handle (j : Json) : Except String Json := do
     pure (Json.mkObj [("fns", Json.arr (p.fns.map jFn).toArray), ("init", jOpt p.init),
                       ("indent_ok", Json.bool (p.fns.all (fun f => EmitPy.indentOK [4, 0] false (EmitPy.fnLines f)))),
                       ("nlines", Json.num (JsonNumber.fromNat lines.length)),
+                      ("context", Json.arr ((EmitCs.context t).map (fun d => match d with
+                          | .guard g => Json.arr #[Json.str "guard", jStr g]
+                          | .action a e => Json.arr #[Json.str "action", jStr a, jStr e]
+                          | .entry st => Json.arr #[Json.str "entry", jStr st]
+                          | .exit st => Json.arr #[Json.str "exit", jStr st])).toArray),
+                      ("classes", jStrs (EmitCs.classes t)),
+                      ("states", jStrs (Table.states t)), ("events", jStrs (Table.events t)),
+                      ("actions", jStrs (Table.actions t)), ("guards", jStrs (Table.guards t)),
+                      ("sigs", Json.arr ((Table.actionSigs t).map (fun p => Json.arr #[jStr p.1, jStr p.2])).toArray)])
+  | "emitsml" => do
+    let t ← parseRows (← j.getObjVal? "tt")
+    let enc : EmitSml.SmlRow → Json
+      | .trans i s e g a n => Json.arr #[Json.str "trans", Json.bool i, jStr s, jStr e, jStr g, jStr a, jOpt n]
+      | .entry s => Json.arr #[Json.str "entry", jStr s]
+      | .exit s => Json.arr #[Json.str "exit", jStr s]
+    pure (Json.mkObj [("rows", Json.arr ((EmitSml.rows t).map enc).toArray),
                       ("states", jStrs (Table.states t)), ("events", jStrs (Table.events t)),
                       ("actions", jStrs (Table.actions t)), ("guards", jStrs (Table.guards t)),
                       ("sigs", Json.arr ((Table.actionSigs t).map (fun p => Json.arr #[jStr p.1, jStr p.2])).toArray)])
